@@ -624,7 +624,12 @@ func (x *c09Run) checkFinal(s *c09Sys, bs []c09Block, headSizes []int64, c c09Ca
 		// never a block strictly newer than a retained one
 		sig := "retention-result-differs-from-definition"
 		if okAll {
-			sig = "retention-counts-superseded-or-deletable-blocks"
+			// known-finding class: the result is what the definition gives when the doomed blocks
+			// (superseded parents / blocks marked deletable) are still counted as live blocks
+			sig = "retention-counts-superseded-parents"
+			if c.Scenario == "flag-oldest" {
+				sig = "retention-counts-deletable-blocks"
+			}
 		}
 		x.viol(sig, fmt.Sprintf("blocks left {%s}, the definition allows %v (head/WAL size %v)", got, wants, headSizes), c, bs)
 		return
